@@ -9,6 +9,10 @@ NOTES = {
     'C11-B2-commented-dict-value-rerender-depth': 'MISSED by C11 as first built (no commented values); caught after adding comment()/trailing_comment() wrappers to the random trees',
     'C20-A2-exact-type-memo-stale-entry': 'MISSED by C20 as first built (needs a user re-registration, A\'s delayed write and a LATER print by B); caught after adding scenario S14 and the call-boundary return policy',
     'C20-B2-dispatch-outside-lock': 'MISSED by C20 quick as first built (window entirely inside functools, scenario S2 had package-only switch points); caught after adding functools/weakref switch points to S2 and S7',
+    'C18-A2-pretty-repr-ignores-deferred': 'MISSED by C18 as first built (the pretty_repr type was registered by class); caught after adding a type registered by name whose first entry point is repr()',
+    'C19-B2-dict-key-doc-memo-ignores-type': 'MISSED by C19 as first built (no str/bytes-subclass dict keys equal to plain keys); caught after adding equal keys of different types to the corpus',
+    'C16-A2-colored-rstrip-separator-only': 'MISSED by C16 as first built (no comment text with trailing/lone tabs); caught after adding tab / vertical-tab / NBSP templates to the comment generator',
+    'C17-B2-dataclass-classvar-pseudo-fields': 'MISSED by C17 as first built (no ClassVar pseudo-fields); caught after generating dataclasses with ClassVar attributes that are changed after class creation',
 }
 for name, note in NOTES.items():
     p = os.path.join(HOME, 'seeded', name, 'meta.json')
